@@ -275,9 +275,9 @@ def normalise(res):
 def outcome_of(fn):
     try:
         res = fn()
+        return normalise(res), None
     except BaseException as e:       # KeyboardInterrupt / MemoryError are injected faults
         return ('exc', type(e).__name__), e
-    return normalise(res), None
 
 
 def collect_mvs(obj, out):
